@@ -192,6 +192,25 @@ def m_m1(ctx, case):
                 key = "cprNL-ulp-noise-at-transition-NL%d" % cpr.nearest_transition(float(a0))[0]
             ctx.violation(key, fn=fn, args=args, c=rc, py=rp)
         ctx.nontrivial(("m1", fn, repr(args)))
+    # the same calls with the arguments passed BY NAME (the names of the Python twin, which are those of the common.pyi stub):
+    # a program written against one configuration must run against the other
+    import inspect
+    try:
+        names = [p_.name for p_ in inspect.signature(fp).parameters.values()]
+    except (TypeError, ValueError):
+        names = None
+    if names:
+        for args in case["args"][:40]:
+            if len(args) > len(names):
+                continue
+            kw = dict(zip(names, args))
+            rc, rp = call(fc, **kw), call(fp, **kw)
+            ctx.ev(2)
+            ctx.hit("m1_keyword_calls")
+            if not eq(fn, rc, rp) and not (fn in ("bin2int", "hex2int") and isinstance(args[0], str) and len(args[0]) * (4 if fn == "hex2int" else 1) > 63) \
+                    and not (fn == "cprNL" and cpr.near_transition(float(args[0]), 5e-13)):
+                ctx.violation("m1-keyword-name-differs-%s" % fn if rc[0] == "exc" and rc[1] == "TypeError" or rp[0] == "exc" and rp[1] == "TypeError"
+                              else "m1-%s-differs" % fn, fn=fn, kwargs=kw, c=rc, py=rp)
     ctx.hit("m1_" + fn, len(case["args"]))
     if ctx.rng.random() < 0.01 and case["args"]:
         ctx.sample({"fn": fn, "args": case["args"][0], "c": repr(call(fc, *case["args"][0])), "py": repr(call(fp, *case["args"][0]))})
